@@ -113,6 +113,14 @@ def cases(tier, seed):
                 for n in (range(100, 141) if mnem != "LBRA" else (126, 127, 128, 129)):
                     for ind in ((False, True) if mnem == "LEAX" else (False,)):
                         yield {"shape": "ref", "mnem": mnem, "kind": kind, "dir": direction, "n": n, "k": 0, "org": None, "ind": ind, "filler": filler}
+    # (b3) spans that mix exactly-sized filler, constant-offset indexed statements and OTHER not-yet-sized PCR statements
+    for direction in ("fwd", "bwd"):
+        for k1, unit in itertools.product(range(0, 5), ("idx16", "idx8")):
+            for k2, far in itertools.product(range(0, 4), (True, False)):
+                if k1 == 0 and k2 == 0:
+                    continue
+                for g in (range(84, 131) if thorough else range(92, 128, 1)):
+                    yield {"shape": "mixed", "dir": direction, "k1": k1, "unit": unit, "k2": k2, "far": far, "g": g}
     # (c) bare numeric n,PCR
     for mnem in ("LDA", "LDY", "LEAX", "LDX"):
         for v in c01.V16:
@@ -147,6 +155,13 @@ def build(case):
     sh = case["shape"]
     if sh == "ref":
         return prog_ref(case["mnem"], case["kind"], case["dir"], case["n"], case["k"], case["org"], case["ind"], case.get("filler", "rmb"))
+    if sh == "mixed":
+        inner = [{"idx16": " LDA 300,X", "idx8": " LDA 100,X"}[case["unit"]]] * case["k1"] + \
+                [" LDB {},PCR".format("FAR" if case["far"] else "NEAR")] * case["k2"] + [" RMB {}".format(case["g"])]
+        tail = ["NEAR NOP", " RMB 300", "FAR NOP"]
+        if case["dir"] == "fwd":
+            return ["S1 LDX T1,PCR"] + inner + ["T1 NOP"] + tail
+        return ["T1 NOP"] + inner + ["S1 LDX T1,PCR"] + tail
     if sh == "num":
         t = R.spell(case["v"], case["sp"]) + ",PCR"
         return [" {} {}".format(case["mnem"], "[" + t + "]" if case["ind"] else t), "ZZ9 NOP"]
@@ -171,6 +186,8 @@ def refs_of(case):
     sh = case["shape"]
     if sh == "ref":
         return [("T1" if case["dir"] == "self" else "S1", case["mnem"], case["kind"], "T1", case["k"], case["ind"])]
+    if sh == "mixed":
+        return [("S1", "LDX", "pcr", "T1", 0, False)]
     if sh == "two":
         return [("LA", case["ma"], "pcr", case["ra"], 0, False), ("LB", case["mb"], case["bform"], case["rb"], 0, False)]
     if sh == "three":
@@ -187,6 +204,8 @@ def cell_of(case, mnem, kind, dclass):
                                                "" if case.get("filler", "rmb") == "rmb" else "." + case["filler"])
     if sh == "num":
         return "{}|num{}|{}|{}".format(mnem, ".ind" if case["ind"] else "", c01.vclass(case["v"]), case["sp"])
+    if sh == "mixed":
+        return "mixed|{}|{}x{}|{}x{}|{}".format(case["dir"], case["k1"], case["unit"], case["k2"], "far" if case["far"] else "near", dclass)
     if sh == "two":
         return "two|{}>{}|{}>{}|{}".format(case["ma"], case["ra"], case["mb"], case["rb"], dclass)
     return "three|{}|{}".format(">".join(case["r"]), dclass)
@@ -317,7 +336,7 @@ def _d(x):
 def describe(tier):
     return {
         "alphabet": "(a) 19 short + 19 long branches, forward/backward/self, RMB filler n; targets L, L+-k; with ORG at 6 origins; "
-                    "(b) every indexed-capable mnemonic with L,PCR and [L,PCR], same sweeps; (b2) distances 100..140 built from constant-offset indexed / extended instructions instead of RMB; (c) bare n,PCR over V16 x 3 spellings; "
+                    "(b) every indexed-capable mnemonic with L,PCR and [L,PCR], same sweeps; (b2) distances 100..140 built from constant-offset indexed / extended instructions instead of RMB; (b3) spans mixing 0-4 constant-offset indexed statements, 0-3 other unsized PCR statements (near or far) and RMB filler; (c) bare n,PCR over V16 x 3 spellings; "
                     "(d) two PCR statements (and PCR + short branch) referencing any of 5 labels around them, both gaps over 112..132"
                     + ("; three PCR statements, 6 reference shapes, three gaps over 112..132" if tier == "thorough" else ""),
         "bound": "n in 0..140 for {} mnemonics, boundary band {} for the rest; +-10 around 32767 for {}".format(
